@@ -370,7 +370,7 @@ pub fn chain_pools(tier: Tier) -> Vec<(String, ScOp)> {
 }
 
 pub fn jobs(tier: Tier) -> Vec<Job> {
-    let full = PuChecker { name: "c03-pu-full".into(), seeds: vec!["S1", "S2", "S3", "S3r", "S4", "S6", "S8"], alpha: Alpha::Full, oracles: vec![oracle] };
+    let full = PuChecker { name: "c03-pu-full".into(), seeds: vec!["S1", "S2", "S3", "S3r", "S4", "S6", "S8", "S8a"], alpha: Alpha::Full, oracles: vec![oracle] };
     let core = PuChecker { name: "c03-pu-swapfocus".into(), seeds: vec!["S3", "S4"], alpha: Alpha::SwapFocus, oracles: vec![oracle] };
     let chain = SwapChain { name: "c03-swap-chains".into(), pools: chain_pools(tier) };
     vec![explore_job(full, tier.pick(2, 3), Caps::default()), explore_job(core, tier.pick(3, 4), Caps::default()), explore_job(chain, tier.pick(3, 4), Caps::default())]
